@@ -121,7 +121,12 @@ def build(top, ctx):
                                  required=tuple(objs[a] for a in reqs[i])))
         return sched
 
-    return make(top, True)
+    obj = make(top, True)
+    ctx.top = obj
+    for node, parent, _ in walk(top):
+        if parent is not None:
+            ctx.parent_of[node['id']] = parent['id']
+    return obj
 
 
 def _is_chain(sched):
